@@ -7,6 +7,7 @@ def run(ctx):
     rep.rule = ("exhaustive single steps: 3 states x inputs -128..255 x elapsed {0,t-1,t,t+1,10t}; state and last "
                 "timestamp set through the public struct; non-trivial = steps that change state (as the oracle expects)")
     sweeps.run_sweep(ctx, "c14", [], "C14")
+    sweeps.run_sweep(ctx, "c14h", [], "C14")        # two-step histories
     rep.exhaustive = True
     rep.need("steps", rep.counters.get("sweep_c14_cases", 0), 5000)
     from . import c14_tick
